@@ -326,6 +326,7 @@ def run_shard(ctx: Ctx, spec):
     size = SIZES[ctx.tier]
     rng = random.Random(ctx.sub_seed("c11"))
     modes = Modes()
+    modes.raw.timeout = modes.opt.timeout = 120.0  # C11 isolates and counts texts that do not come back
     try:
         # 1. prefixes of the bundled grammars (work split by offset)
         for f in bundled_grammar_files():
